@@ -49,7 +49,7 @@ def run(scenario, release=False, timeout=60, **kw):
     out = {}
     lines = []
     for ln in p.stdout.split('\n'):
-        if ln.startswith('step ') or ' ' in ln.strip():
+        if ln.startswith('step '):
             lines.append(ln)
         elif '=' in ln:
             k, v = ln.split('=', 1)
